@@ -93,7 +93,7 @@ def run_property(prop, tier, repo=None, variants=None, verbose=True, replay=None
         mod.run(P, rep, tier)
         reports.append(rep)
         stats[v] = P.stats()
-        if repo != build.REPO:
+        if repo != build.REPO and not os.environ.get("VERIF_KEEP_CACHE"):
             import shutil
             shutil.rmtree(d, ignore_errors=True)   # scratch copies leave no cache behind
     return finish(prop, tier, mod, reports, stats, t0, repo, verbose)
